@@ -60,7 +60,12 @@ def run_edit(args) -> dict:
         try:
             repo = Repo(root=root)
             fired = []
+            from .runner import RULES
+            from . import rules as _r  # noqa: F401
+
             for prop in edit["props"]:
+                if not any(prop in sp.props for sp in RULES.values()):
+                    continue  # property has no rules (yet): nothing to test
                 res = run_property(repo, prop, "thorough")
                 fired += [(prop, o.rule, o.construct, o.msg) for o in res.violations]
         except AnalysisError as e:
